@@ -172,6 +172,7 @@ pub fn write() {
 
 static WD_DEADLINE_MS: AtomicU64 = AtomicU64::new(0); // 0 = disarmed; else ms since START
 static WD_STARTED: AtomicBool = AtomicBool::new(false);
+static WD_STRICT: AtomicBool = AtomicBool::new(false);
 static WD_LABEL: Mutex<String> = Mutex::new(String::new());
 static START: Mutex<Option<Instant>> = Mutex::new(None);
 
@@ -189,7 +190,16 @@ pub fn arm(label: &str, secs: u64) {
     }
 }
 
+/// Like `arm`, for steps known to take milliseconds (opening one crash image): a process that burns CPU for 30 s
+/// after the deadline without a single harness tick, file I/O or yield point is reported as a spinning hang
+/// instead of "slow but progressing".
+pub fn arm_strict(label: &str, secs: u64) {
+    WD_STRICT.store(true, Ordering::SeqCst);
+    arm(label, secs);
+}
+
 pub fn disarm() {
+    WD_STRICT.store(false, Ordering::SeqCst);
     WD_DEADLINE_MS.store(0, Ordering::SeqCst);
 }
 
@@ -278,6 +288,20 @@ fn watchdog_loop() {
             violation(
                 &format!("{}:hang:{}", check, sig),
                 &format!("call did not return and the process made no progress for 6 s (no harness call returned, no I/O, no yield point passed, < 0.3 s CPU); threads: {}", states),
+                J::obj().with("label", label.as_str()),
+            );
+            count("hangs", 1);
+        } else if WD_STRICT.load(Ordering::SeqCst) && a.1 == c.1 && a.2 == c.2 && {
+            // CPU is burning but nothing else moves: watch 24 s more
+            std::thread::sleep(Duration::from_secs(24));
+            let d = progress_snapshot();
+            WD_DEADLINE_MS.load(Ordering::SeqCst) == dl && d.1 == a.1 && d.2 == a.2
+        } {
+            let sig = ON_HANG_SIG.lock().unwrap().clone().unwrap_or_else(|| "hang".into());
+            let check = with(|r| r.check.clone());
+            violation(
+                &format!("{}:hang:spinning:{}", check, sig),
+                &format!("call did not return; for 30 s after its deadline the process burnt CPU without a harness tick, file I/O or yield point; threads: {}", states),
                 J::obj().with("label", label.as_str()),
             );
             count("hangs", 1);
